@@ -256,7 +256,9 @@ class VariableTransformer:
         u : np.ndarray
             The variables transformed.
         """
-        y = self.g(input)
+        # (inputs outside the box are clamped first: the log of a non-positive
+        # input to a log-scaled coordinate would land anywhere in the box)
+        y = self.g(np.minimum(np.maximum(input, self.orig_lb), self.orig_ub))
         y = np.minimum(
             np.maximum(y, self.lb), self.ub
         )  # Force to stay within bounds
